@@ -183,3 +183,72 @@ def run_if_family(case: dict, rng, sizes, max_inst: int, extra_feeds=()) -> dict
             f["c"] = np.array(c)
             feeds.append(f)
     return P.observe(args, outs, rng, sizes, max_inst, extra_feeds=list(extra_feeds) + feeds, only_extra=True)
+
+
+# ------------------------------------------------------------------------------------ Scan state outputs
+STATE_TYS = [
+    {"e": "f32", "s": None},
+    {"e": "f32", "s": []},
+    {"e": "f32", "s": [3]},
+    {"e": "f32", "s": [4]},
+    {"e": "f32", "s": ["N"]},
+    {"e": "f32", "s": ["M"]},
+    {"e": "f32", "s": [None]},
+    {"e": "f32", "s": [2, 3]},
+    {"e": "f32", "s": [2, "N"]},
+    {"e": "f32", "s": [None, "M"]},
+    {"e": "f32", "s": ["N", None]},
+    {"e": "f32", "s": [None, None]},
+    {"e": "i64", "s": [3]},
+]
+
+
+def real_scan_state(S0, R, module="v17") -> dict:
+    """Type `op.scan` reports for the final state when the initial state has type S0 and the body returns a
+    Var of type R for it (one scan input f32[5,2], returned as the scan row)."""
+    op = P.opset_module(module)
+    try:
+        s0 = L.mk_var(S0)
+        x = L.mk_var({"e": "f32", "s": [5, 2]})
+        r = L.mk_var(R)
+        with warnings.catch_warnings():
+            warnings.simplefilter("ignore")
+            outs = op.scan([s0, x], body=lambda s, xx: [r, xx], num_scan_inputs=1)
+        return {"ty": L.ty_to_json(outs[0].type)}
+    except Exception as ex:  # noqa: BLE001
+        return {"err": type(ex).__name__}
+
+
+def raw_scan_state_run(kind: str, state_shape: list, n: int):
+    """A raw `Scan` node (onnx.helper, no spox): one f32 state of the given shape whose body result is
+    `kind`(state) — keep / double (Concat) / head (Slice 0:1) / flatten (Reshape [-1]); one scan input
+    f32[n,2] returned as the row. Only ranks are declared (every dim symbolic), so only the RUNTIME's rule decides.
+    Returns [final, Y] as values, or raises what onnxruntime raises."""
+    import onnx
+    from onnx import TensorProto as T
+    from onnx import helper as h
+
+    sym = [f"d{i}" for i in range(len(state_shape))]  # ranks declared (onnxruntime requires it), every dim symbolic
+    b_in = [h.make_tensor_value_info("s", T.FLOAT, sym), h.make_tensor_value_info("x", T.FLOAT, ["p"])]
+    nodes = []
+    if kind == "double":
+        nodes.append(h.make_node("Concat", ["s", "s"], ["s_out"], axis=0))
+    elif kind == "head":
+        for nm, v in (("b", [0]), ("e", [1]), ("a", [0])):
+            nodes.append(h.make_node("Constant", [], [nm], value=onnx.numpy_helper.from_array(np.array(v, np.int64))))
+        nodes.append(h.make_node("Slice", ["s", "b", "e", "a"], ["s_out"]))
+    elif kind == "flatten":
+        nodes.append(h.make_node("Constant", [], ["sh"], value=onnx.numpy_helper.from_array(np.array([-1], np.int64))))
+        nodes.append(h.make_node("Reshape", ["s", "sh"], ["s_out"]))
+    else:
+        nodes.append(h.make_node("Identity", ["s"], ["s_out"]))
+    nodes.append(h.make_node("Identity", ["x"], ["y"]))
+    body = h.make_graph(nodes, "body", b_in, [h.make_value_info("s_out", onnx.TypeProto()), h.make_value_info("y", onnx.TypeProto())])
+    node = h.make_node("Scan", ["s0", "X"], ["fin", "Y"], body=body, num_scan_inputs=1)
+    g = h.make_graph([node], "g", [h.make_tensor_value_info("s0", T.FLOAT, sym), h.make_tensor_value_info("X", T.FLOAT, ["n", "p"])],
+                     [h.make_value_info("fin", onnx.TypeProto()), h.make_value_info("Y", onnx.TypeProto())])
+    m = h.make_model(g, opset_imports=[h.make_operatorsetid("", 17)])
+    m.ir_version = 8
+    sess = P._session(m.SerializeToString())
+    res = sess.run(None, {"s0": np.ones(tuple(state_shape), np.float32), "X": np.zeros((n, 2), np.float32)})
+    return [L.val_of(r) for r in res]
